@@ -241,6 +241,8 @@ func solverArgv(name string, timeoutMs int) []string {
 		return []string{"z3", "-in", fmt.Sprintf("-t:%d", timeoutMs)}
 	case "z3-new":
 		return []string{"z3-new", "-in", fmt.Sprintf("-t:%d", timeoutMs)}
+	case "z3-bv": // z3-new with (set-logic QF_BV): incremental SAT core instead of the generic SMT core
+		return []string{"z3-new", "-in", fmt.Sprintf("-t:%d", timeoutMs)}
 	case "cvc5":
 		return []string{"cvc5", "--incremental", "--produce-models", fmt.Sprintf("--tlimit-per=%d", timeoutMs), "--lang=smt2"}
 	}
@@ -277,7 +279,7 @@ func (s *Solver) start() error {
 	s.dead = false
 	s.send("(set-option :global-declarations true)")
 	s.send("(set-option :produce-models true)")
-	if s.name == "cvc5" {
+	if s.name == "cvc5" || (s.name == "z3-bv" && s.mode != ModeInt) {
 		if s.mode == ModeInt {
 			s.send("(set-logic QF_NIA)")
 		} else {
